@@ -723,12 +723,11 @@ def _(rng, t):
             [path, list(t.fields), ["id", "cov"], ["cov"], default_meta()], {})
 
 
-@op("from_long_csv(metadata, loss_detail_cols)", vk="scalar")
+@op("from_long_csv(metadata)", vk="scalar")
 def _(rng, t):
     path = tmp_path(".csv")
     long_frame(t).to_csv(path, index=False)
-    return (lambda fn, ld, m: Triangle.from_long_csv(fn, loss_detail_cols=ld, metadata=m),
-            [path, ["cov"], default_meta()], {})
+    return (lambda fn, m: Triangle.from_long_csv(fn, metadata=m), [path, default_meta()], {})
 
 
 @op("from_array_data_frame(metadata)", vk="scalar", basis="cum", res=12)
@@ -747,7 +746,10 @@ def _(rng, t):
 
 @op("from_chain_ladder(base_metadata)", vk="scalar", basis="cum")
 def _(rng, t):
-    cl = first_slice(t).to_chain_ladder()
+    import chainladder
+    with warnings.catch_warnings():
+        warnings.simplefilter("ignore")
+        cl = chainladder.load_sample("raa")
     return (lambda c, m: Triangle.from_chain_ladder(c, base_metadata=m), [cl, default_meta()], {})
 
 
@@ -863,7 +865,7 @@ class Scenario:
             freeze(obj)
         self.alive.append((label, obj))
 
-    def call(self, label, build, rng, t, case):
+    def call(self, label, build, rng, t, case, repeat=1):
         try:
             with warnings.catch_warnings():
                 warnings.simplefilter("ignore")
@@ -879,6 +881,13 @@ class Scenario:
             with warnings.catch_warnings():
                 warnings.simplefilter("ignore")
                 res = fn(*args, **kwargs)
+                for _ in range(repeat - 1):
+                    # the SAME objects once more: state carried from the first call (caches, consumed
+                    # defaults, arrays handed back) must not reach the arguments either
+                    mid = [fp(o) for _, o in self.alive]
+                    if mid != before:
+                        break
+                    res = fn(*args, **kwargs)
         except Exception as e:  # noqa: BLE001
             outcome = "raised:" + type(e).__name__
             msg = str(e)
@@ -926,7 +935,8 @@ def run_scenario(ctx, name, shape, position, seed, readonly):
         outcome, res = sc.call(link, REGISTRY[link]["build"], rng, t, case)
         if outcome == "returned" and isinstance(res, Triangle) and len(res) > 0:
             t = res
-    outcome, res = sc.call(name, entry["build"], rng, t, case)
+    slow = entry["plot"] or name in SLOW_OPS
+    outcome, res = sc.call(name, entry["build"], rng, t, case, repeat=1 if slow else 2)
     if outcome != "returned" and position > 0:
         # the chain produced something the operation refuses: also run it on the initial triangle
         outcome2, res = sc.call(name, entry["build"], rng, t0, case)
